@@ -88,6 +88,39 @@ CLAIMED = {
             "DESIGN.md 3/C20",
             "image sizes 1..2 (quick) / 1..3 (thorough) in each dimension; tracing::saveLog and event recording NOT covered (std::ofstream/unordered_map/chrono internals cannot be encoded within reach)",
             "bounded model checking (cbmc) of LLVM-IR-derived C with an stdio capture model, ASan replay"),
+    "C03": ("model_checking",
+            "cbmc bounded model checking of the real AsyncLoop code (constructor, loop-thread lambda run through std::thread's _State_impl::_M_run, start, stop, destructor): the loop thread "
+            "runs as the main flow and every sequence of complete controller operations is injected at its RKCOMMON_VERIF scheduling points and while it is blocked in condition_variable::wait; "
+            "ghost state decides P1 (no body begins after stop() returned), P2 (no lost wake-up after start()), P3 (destructor's notify un-parks the thread; it joins). Counterexamples are "
+            "replayed natively with the loop thread parked at the named point.",
+            "DESIGN.md 3/C03",
+            "THREAD launch; <= 1 (quick) / 2 (thorough) controller operations after an optional initial start(); <= 1/2 body invocations (unwinding assumption); controller operations are atomic "
+            "with respect to the loop thread (schedules with the controller suspended mid-operation are not explored: cbmc's own thread interleaving aborts on pointer-carrying shared state); SC; "
+            "no spurious wake-ups; TASK launch's TBB execution outside",
+            "bounded model checking (cbmc) with schedule injection at named hook points, native forced-schedule replay"),
+    "C09": ("model_checking",
+            "cbmc bounded model checking of the real Optional<T>/Any code for every copy/move/assign/construct path with engaged and empty sources and targets (each combination its own "
+            "obligation, payload values symbolic), value-level operations, comparisons and conversions, with a ghost lifetime map on an instrumented payload (constructor only on dead storage, "
+            "destructor/assignment/read only on live objects, everything destroyed exactly once) and alignment of the storage; Any::get<T> throws exactly for wrong type / empty.",
+            "DESIGN.md 3/C09",
+            "payloads: int/long (convertible pair), lifetime-instrumented P, over-aligned PA; std::string/vector payloads represented by P; engaged/empty combinations enumerated per entry; "
+            "error-message formatting (stringstream, demangle) opaque; getEnvVar and printed text outside",
+            "bounded model checking (cbmc) with ghost lifetime instrumentation, ASan/UBSan replay"),
+    "C10": ("model_checking",
+            "cbmc bounded model checking of FlatMap<int,int>: one operation (operator[] write/read-insert, at, erase, clear, contains) with a symbolic key from an arbitrary valid state of N entries "
+            "with symbolic distinct keys and values, compared with an insertion-ordered reference map incl. iteration and at_index order - an inductive step covering histories of any length "
+            "within the size bound; ParameterizedObject scenarios with symbolic values (exact/wrong-type reads, default, query flag, reset).",
+            "DESIGN.md 3/C10",
+            "state size N <= 2 (quick) / 3 (thorough); erase (std::stable_partition) only N <= 1 / 2 with recursion bound; ParameterizedObject: fixed scenarios (two-name scenarios only in thorough, may be inconclusive); "
+            "int keys/values; names 'a','b' via the libstdc++ string model",
+            "bounded model checking (cbmc) of LLVM-IR-derived C, inductive one-step harness with reference model"),
+    "C14": ("model_checking",
+            "cbmc bounded model checking of aligned_allocator<T,64>::allocate/deallocate for every 64-bit element count (n=0, length_error beyond max_size without an allocation call, exact "
+            "n*sizeof(T) bytes without wrap, bad_alloc on null, aligned and usable result), alignedMalloc/alignedFree over every power-of-two alignment 1..4096 with posix_memalign by contract "
+            "(its precondition is an obligation), and AlignedVector<int> operations (push_back/resize/reserve/shrink_to_fit/swap/assign) from states of N elements: data() aligned, elements preserved.",
+            "DESIGN.md 3/C14",
+            "non-TBB back end only (TBB scalable allocator is a closed library); posix_memalign contract stub; alignment judged on the offset within the returned block; vector states N <= 2 (quick) / 3",
+            "bounded model checking (cbmc) of LLVM-IR-derived C with contract stubs"),
 }
 
 NOT_YET = "check not yet built (work in progress, see DESIGN.md section 7)"
